@@ -568,6 +568,10 @@ def required_variables(sym):
             if d == upd_right:
                 out['adds_right'] = True
                 continue
+            if d == D("required_vars.update(self._flatten_nodes_of_(self.right))"):
+                # the flatten nodes of the right operand ride along with its variables (the D-model's fragment has no flatten: no table)
+                need(out.get('adds_right'), f'{where}: the flatten nodes of the right operand are added without its variables')
+                continue
             if isinstance(st, ast.For) and isinstance(st.target, ast.Name) and st.target.id == 'conc' \
                     and [ast.dump(x) for x in st.body] == [upd_conc] and '_conclusion_' in ast.dump(st.iter):
                 continue
